@@ -1,4 +1,5 @@
 import RV.C09.Lemmas
+import RV.C09.B64Lemmas
 import RV.C09.Claims
 /-
   C09 — lemmas at the level of `Lit` (constructors, normalisation, eq).
@@ -118,6 +119,14 @@ theorem lex_to_value_xsd_covered (d : Dt) (s : Str) (nz : Bool) (hc : Covered d 
       refine ⟨by simp [ValueIs, Dt.conv, h1], ?_, ?_⟩
       · rw [wellFormed_nobounds (by decide) (by decide), h1]; rfl
       · intro pv hp; rw [h1] at hp; cases hp; rfl
+    | b64 =>
+      have hd : d = .base64Binary := by cases d <;> simp [Dt.conv] at hcv <;> rfl
+      subst hd
+      have h1 : castLex (some .base64Binary) s = some (.bytes (Spec.b64ValOf s)) := by
+        simp [castLex, Dt.conv, b64decode_xsd (by simpa [Spec.validLex] using hv)]
+      refine ⟨by simp [ValueIs, Dt.conv, h1], ?_, ?_⟩
+      · rw [wellFormed_nobounds (by decide) (by decide), h1]; rfl
+      · intro pv hp; rw [h1] at hp; cases hp; rfl
     | _ => simp at hc
   obtain ⟨hval, hwf, hpy⟩ := key
   have hpp : postProcess (some d) s = s := by
@@ -213,9 +222,10 @@ theorem castLex_str {dt : Option Dt} {s s' : Str} (h : castLex dt s = some (.str
     · obtain ⟨_, _, _, _, _, _, _, _, h'⟩ := pyDateTimeFromIso_kind h; cases h'
     · rcases parseXsdDuration_kind h with ⟨_, h'⟩ | ⟨_, _, _, h'⟩ <;> cases h'
     · simp only [Option.map_eq_some_iff] at h; obtain ⟨_, _, h⟩ := h; cases h
+    · simp only [Option.map_eq_some_iff] at h; obtain ⟨_, _, h⟩ := h; cases h
 
 theorem castLex_bytes {dt : Option Dt} {s : Str} {b : List Nat} (h : castLex dt s = some (.bytes b)) :
-    dt = some .hexBinary ∧ unhexlify s = some b := by
+    (dt = some .hexBinary ∧ unhexlify s = some b) ∨ (dt = some .base64Binary ∧ b64decode s = some b) := by
   unfold castLex at h
   split at h
   · cases h
@@ -231,13 +241,31 @@ theorem castLex_bytes {dt : Option Dt} {s : Str} {b : List Nat} (h : castLex dt 
     · rcases parseXsdDuration_kind h with ⟨_, h'⟩ | ⟨_, _, _, h'⟩ <;> cases h'
     · rename_i hc
       simp only [Option.map_eq_some_iff] at h; obtain ⟨b', hb, h⟩ := h; cases h
-      refine ⟨?_, hb⟩
+      refine Or.inl ⟨?_, hb⟩
       cases d <;> simp [Dt.conv] at hc <;> rfl
+    · rename_i hc
+      simp only [Option.map_eq_some_iff] at h; obtain ⟨b', hb, h⟩ := h; cases h
+      refine Or.inr ⟨?_, hb⟩
+      cases d <;> simp [Dt.conv] at hc <;> rfl
+
+/-- the two binary datatypes: the bytes are bytes, and what the printer writes reads back as the same bytes -/
+theorem castLex_bytes_lt {dt : Option Dt} {s : Str} {b : List Nat} (h : castLex dt s = some (.bytes b)) :
+    (dt = some .hexBinary ∨ dt = some .base64Binary) ∧ ∀ x ∈ b, x < 256 := by
+  rcases castLex_bytes h with ⟨h1, h2⟩ | ⟨h1, h2⟩
+  · exact ⟨Or.inl h1, unhexlify_lt h2⟩
+  · exact ⟨Or.inr h1, b64decode_lt h2⟩
+
+theorem bin_roundtrip {dt : Option Dt} {b : List Nat} (hd : dt = some .hexBinary ∨ dt = some .base64Binary)
+    (hlt : ∀ x ∈ b, x < 256) :
+    ∃ lx, pyLex (.bytes b) dt = some lx ∧ castLex dt lx = some (.bytes b) ∧ ∀ t, postProcess dt t = t := by
+  rcases hd with rfl | rfl
+  · exact ⟨hexlify b, by simp [pyLex], by simp [castLex, Dt.conv, unhexlify_hexlify hlt], fun t => rfl⟩
+  · exact ⟨b64encode b, by simp [pyLex], by simp [castLex, Dt.conv, b64decode_b64encode hlt], fun t => rfl⟩
 
 /-! ### well-formed literals, `normalize()` is a fixpoint after one step -/
 
 structure WF (l : Lit) : Prop where
-  bytes : ∀ b, l.value = some (.bytes b) → l.dt = some .hexBinary ∧ ∀ x ∈ b, x < 256
+  bytes : ∀ b, l.value = some (.bytes b) → (l.dt = some .hexBinary ∨ l.dt = some .base64Binary) ∧ ∀ x ∈ b, x < 256
   str : ∀ s, l.value = some (.str s) → castLex l.dt s = some (.str s) ∧ postProcess l.dt s = s
   other : ∀ v, l.value = some v → v.isStr = false → v.isBytes = false → l.dt.isSome = true
 
@@ -246,8 +274,8 @@ theorem wf_mkLex {dt : Option Dt} {s : Str} {nz : Bool} {l : Lit} (h : mkLex dt 
   refine ⟨?_, ?_, ?_⟩
   · intro b hb
     rw [hv] at hb
-    obtain ⟨h1, h2⟩ := castLex_bytes hb
-    exact ⟨by rw [hd, h1], unhexlify_lt h2⟩
+    obtain ⟨h1, h2⟩ := castLex_bytes_lt hb
+    exact ⟨by rw [hd]; exact h1, h2⟩
   · intro s' hs
     rw [hv] at hs
     obtain ⟨h1, _⟩ := castLex_str hs
@@ -310,8 +338,7 @@ theorem wf_mkFromLit {old : Lit} (dt : Option Dt) (hw : WF old) : WF (mkFromLit 
         intro t; cases d <;> first | rfl | (simp at hws)
       refine ⟨?_, ?_, (by intro v _ _ _; rfl)⟩
       · intro b hb
-        obtain ⟨h1, h2⟩ := castLex_bytes (show castLex (some d) old.lex = some (.bytes b) from hb)
-        exact ⟨h1, unhexlify_lt h2⟩
+        exact castLex_bytes_lt (show castLex (some d) old.lex = some (.bytes b) from hb)
       · intro s hs
         have hs' : castLex (some d) old.lex = some (.str s) := hs
         obtain ⟨h1, _⟩ := castLex_str hs'
@@ -332,7 +359,7 @@ theorem wf_mkFromLit {old : Lit} (dt : Option Dt) (hw : WF old) : WF (mkFromLit 
         · cases hb
         · rename_i hne
           obtain ⟨h1, _⟩ := hw.bytes b hb
-          rw [hd] at h1; cases h1; simp [Dt.conv] at hcv
+          rw [hd] at h1; rcases h1 with h1 | h1 <;> cases h1 <;> simp [Dt.conv] at hcv
       · intro s hs
         split at hs
         · cases hs
@@ -416,11 +443,8 @@ theorem normalize_fixpoint {l n1 : Lit} (hw : WF l) (h : l.normalize = some n1) 
     cases v with
     | bytes b =>
       obtain ⟨hdt, hlt⟩ := hw.bytes b hv
-      have hp : pyLex (.bytes b) l.dt = some (hexlify b) := by simp [pyLex, hdt]
-      have hpp : ∀ t, postProcess l.dt t = t := by intro t; simp [postProcess, hdt]
-      have hc : castLex l.dt (postProcess l.dt (hexlify b)) = some (.bytes b) := by
-        rw [hpp, hdt]
-        simp [castLex, Dt.conv, unhexlify_hexlify hlt]
+      obtain ⟨lx, hp, hc0, hpp⟩ := bin_roundtrip hdt hlt
+      have hc : castLex l.dt (postProcess l.dt lx) = some (.bytes b) := by rw [hpp]; exact hc0
       simp only [Lit.normalize, hv, hp, mkLex_true_of hc hp] at h
       cases h
       simp only [Lit.normalize, hp, mkLex_true_of hc hp]
@@ -535,6 +559,21 @@ theorem normalize_same_value_covered (d : Dt) (s : Str) (hc : Covered d = true) 
       have h2 := unhexlify_xsd (hexLex_hexlify hlt)
       rw [unhexlify_hexlify hlt] at h2
       exact Option.some.inj h2
+  | b64 =>
+    have hd : d = .base64Binary := by cases d <;> simp [Dt.conv] at hcv <;> rfl
+    subst hd
+    have hx : Spec.b64Lex s = true := by simpa [Spec.validLex] using hv
+    have hu := b64decode_xsd hx
+    have hlt := b64decode_lt hu
+    have h1 : castLex (some .base64Binary) (postProcess (some .base64Binary) s) = some (.bytes (Spec.b64ValOf s)) := by
+      rw [hpp]; simp [castLex, Dt.conv, hu]
+    have hp : pyLex (.bytes (Spec.b64ValOf s)) (some .base64Binary) = some (b64encode (Spec.b64ValOf s)) := by simp [pyLex]
+    obtain ⟨e1, e2⟩ := b64Lex_b64encode hlt
+    refine ⟨_, mkLex_true_of h1 hp, ?_, ?_⟩
+    · show Spec.validLex .base64Binary (b64encode (Spec.b64ValOf s)) = true
+      simpa [Spec.validLex] using e1
+    · show Spec.b64ValOf s = Spec.b64ValOf (b64encode (Spec.b64ValOf s))
+      exact e2.symm
   | _ => simp at hc
 
 /-! ### eq, term equality -/
@@ -635,6 +674,15 @@ theorem denotes_mkLex_true {dt : Option Dt} {s : Str} {l : Lit} (hx : ExactBack 
           obtain ⟨b, hb, rfl⟩ := Option.map_eq_some_iff.mp hc
           refine ⟨hexlify b, by simp [pyLex], ?_⟩
           rw [hpp]; simp [castLex, Dt.conv, unhexlify_hexlify (unhexlify_lt hb)]
+        | b64 =>
+          have hd : d = .base64Binary := by cases d <;> simp [Dt.conv] at hcv <;> rfl
+          subst hd
+          have hpp : ∀ t, postProcess (some Dt.base64Binary) t = t := fun t => rfl
+          rw [hpp] at hc
+          simp only [castLex, Dt.conv] at hc
+          obtain ⟨b, hb, rfl⟩ := Option.map_eq_some_iff.mp hc
+          refine ⟨b64encode b, by simp [pyLex], ?_⟩
+          rw [hpp]; simp [castLex, Dt.conv, b64decode_b64encode (b64decode_lt hb)]
         | _ => simp at hx
     obtain ⟨lx, hlx, hback⟩ := key
     rw [mkLex_true_of hc hlx] at h
